@@ -102,7 +102,10 @@ def run(rep, facts, tier):
     for n in pairs:
         enc, dec = words[n]['target'], words[n + '>']['target']
         le = [x for x in lib_calls(fx, enc) if direction(x[0], x[1]) != '?']
-        ld = [x for x in lib_calls(fx, dec) if direction(x[0], x[1]) != '?']
+        ld_all = [x for x in lib_calls(fx, dec) if direction(x[0], x[1]) != '?']
+        # a decoder may call the encoder of its own pair to check that the text is canonical (same callee, same codec constant)
+        ld = [x for x in ld_all if direction(x[0], x[1]) == 'decode' or not
+              (le and (x[0], x[1]) == (le[0][0], le[0][1]) and codec_const(x[2]) == codec_const(le[0][2]))]
         key = 'C18.R1:%s' % n
         if len(le) != 1 or len(ld) != 1:
             rep.add('C18.R1', key, False, 'expected exactly one library call per word, found encode=%d decode=%d' % (len(le), len(ld)), enc,
@@ -201,6 +204,24 @@ def check_decoder(rep, fx, name, dec):
                     'the text is tested before %s sees it' % short(c) if vetted else
                     '%s hands the text to %s unchecked: that library decodes some text outside the alphabet (or panics on it) instead of '
                     'reporting failure, so invalid text yields a value, not nil' % (short(h.name), short(c)), h.name, t.get('at'))
+    # base32 0.4 also upper-cases its input and drops the spare bits of the last digit: many texts decode to the same bytes.  Only
+    # the text the encoder writes for those bytes is valid - the wrapper encodes the result again and lets a comparison with the
+    # text decide whether the value is returned
+    for h in [fx.fns[r] for r in sorted(fx.reachable_from([dec]) | {dec}) if r.startswith('base_ext::') and r in fx.fns and '{closure' not in r]:
+        decs = [(bb, t) for bb, t in h.calls() if callee_of(t) == 'base32::decode']
+        if not decs:
+            continue
+        encs = [bb for bb, t in h.calls() if callee_of(t) == 'base32::encode']
+        okret = [bb for (bb, i, cls, d) in return_defs(h) if cls == 'ok']
+        cmp_guard = False
+        for rb in okret:
+            for (b2, e, side) in edge_guards(h, rb):
+                if isinstance(e, tuple) and e[0] == 'call' and 'cmp::PartialEq' in e[1] and 'base32::encode' in expr_str(e, -30):
+                    cmp_guard = True
+        rep.add('C18.R3', key + ':canonical-text-only', bool(encs) and cmp_guard,
+                'the decoded bytes are encoded again and the Ok return depends on the comparison with the text' if encs and cmp_guard else
+                '%s returns what base32::decode yields without checking that the text is the canonical one: `"ieyq====" base32>` gives |41 31| '
+                '(no lower case in the alphabet) and IEYR==== decodes like IEYQ====' % short(h.name), h.name, decs[0][1].get('at'))
     # the library's failure value is turned into the Err that the word catches
     units = [f] + [fx.fns[r] for r in fx.reachable_from([dec]) if r.startswith('base_ext::') and r != dec and r in fx.fns
                    and r not in getattr(f, 'inlined', []) and '{closure' not in r]
